@@ -1255,9 +1255,63 @@ def check_discarded_lines(chk, unit, rule="P7"):
             for y in walk(node["cond"]):
                 if y.get("k") == "ref" and y.get("flagdef") is not None:
                     cond_calls |= {X.callee_name(c) for c in X.calls_in(y["flagdef"])}
-            ok = bool(cond_calls & {"feof", "feof_unlocked"}) or bool(cond_calls & {"strlen", "__builtin_strlen"})
+            conds_ = [node["cond"]] + [y["flagdef"] for y in walk(node["cond"]) if y.get("k") == "ref" and y.get("flagdef") is not None]
+            newline_tested = any(
+                (X.callee_name(c_) in ("strchr", "strrchr", "memchr", "__builtin_strchr", "__builtin_strrchr") and len(c_["ch"]) >= 3 and X.const_val(c_["ch"][2]) == 10)
+                for e_ in conds_ for c_ in X.calls_in(e_)) or any(
+                y.get("k") == "bin" and y.get("op") in ("==", "!=") and 10 in (X.const_val(y["ch"][0]), X.const_val(y["ch"][1]))
+                for e_ in conds_ for y in walk(e_))
+            ok = (bool(cond_calls & {"feof", "feof_unlocked"}) or bool(cond_calls & {"strlen", "__builtin_strlen"})) and newline_tested
             chk.ob(rule, f.name, "discard-only-what-did-not-fit", ok, loc=f.loc(node),
-                   detail="%s discards the rest of a line on `%s` alone: that is also true for the last line of a file without a final "
-                          "newline, which is then reported as too long and never delivered to its handler" % (f.name, X.render(node["cond"])[:50]),
-                   proof="the discarding branch also consults end-of-file / the fill of the buffer")
+                   detail="%s discards the rest of a line on `%s`: the test must establish both that no newline was read (a line that "
+                          "fills the buffer exactly still has its newline and fits) and that the text is not simply the last line of a "
+                          "file without a final newline; otherwise a line that fits is reported as too long, never delivered, and - "
+                          "without the newline test - the next line is swallowed with it" % (f.name, X.render(node["cond"])[:60]),
+                   proof="the discarding branch tests for the absence of a newline and consults end-of-file / the fill of the buffer")
+    return n
+
+
+def check_closed_stream_replaced(chk, unit, table="fstate", idx_global="fstate_idx", rule="P8"):
+    """A stream of the file stack that has been closed is not left in the stack: on every path from `fclose(fstate[..].fp)` to a
+    return of the function, the entry's `fp` is given another stream or the entry is popped.  Otherwise the line loop reads
+    from - and later closes again - a FILE that is already closed and freed."""
+    n = 0
+    for f in unit.functions.values():
+        if f.body is None or f.cfg is None:
+            continue
+        closes = []
+        for c in X.calls_in(f.body):
+            if X.callee_name(c) == "fclose" and c["ch"][1:]:
+                a = X.strip(c["ch"][1])
+                if a is not None and a.get("k") == "member" and a.get("n") == "fp" and any(glob_ref(y, table) is not None for y in walk(a)):
+                    closes.append(c)
+        if not closes:
+            continue
+        cfg = nullness.prepared_cfg(f, NORETURN)
+        bad = []
+
+        def transfer(st, x, blk):
+            if x.get("k") == "call" and any(x is c for c in closes):
+                return st | {("closed", x["i"])}
+            if st:
+                if x.get("k") == "assign" and x.get("op") == "=":
+                    l = X.strip(x["ch"][0])
+                    if l is not None and l.get("k") == "member" and l.get("n") == "fp" and any(glob_ref(y, table) is not None for y in walk(l)):
+                        return frozenset()
+                if is_dec_of(x, idx_global):
+                    return frozenset()
+            return st
+
+        def visit(st, x, blk):
+            if x.get("k") == "return" and st:
+                for t in st:
+                    bad.append((t[1], x))
+        flow.forward(cfg, frozenset(), transfer, join=lambda a, b: a | b, visit=visit)
+        for c in closes:
+            n += 1
+            mine = [b_ for b_ in bad if b_[0] == c["i"]]
+            chk.ob(rule, f.name, "closed-stream-replaced:" + canon(f, c)[:30], not mine, loc=f.loc(c),
+                   detail="%s closes the current file's stream and can return (%s) with the closed stream still in the file stack: the line "
+                          "loop then reads from a FILE that was freed, and closes it a second time" % (f.name, f.loc(mine[0][1]) if mine else ""),
+                   proof="every path from the fclose to a return stores another stream or pops the entry")
     return n
